@@ -159,6 +159,48 @@ pub struct EnumOpts<'a> {
 
 /// The enum definition (with derives, attributes, default_with functions and the BASE const).
 pub fn enum_def(e: &EnumSpec, o: &EnumOpts) -> String {
+    // "body" mode: the macro_rules! wrapper holds the derives and the enum header, its caller supplies the name, the
+    // variant list (and, with an "attrs" entry, the enum-level #[strum(..)] attributes)
+    if e.macro_args.iter().any(|(n, _, _)| n == "body") {
+        let mut plain = e.clone();
+        plain.macro_args.clear();
+        let full = enum_def(&plain, o);
+        let at = full.find("//@item\n").map(|i| i + 8).unwrap_or(0);
+        let (prelude, item) = full.split_at(at);
+        let lines: Vec<&str> = item.lines().collect();
+        let needle = format!(" enum {}", o.name);
+        if let Some(h) = lines.iter().position(|l| (l.starts_with("pub") || l.starts_with(" enum") || l.starts_with("enum")) && l.contains(&needle) && l.trim_end().ends_with('{')) {
+            let attrs_mode = e.macro_args.iter().any(|(n, _, _)| n == "attrs");
+            let (head, rest) = lines.split_at(h);
+            let header = rest[0].replacen(&needle, " enum $n", 1);
+            let body = &rest[1..rest.len() - 1];
+            let (strum_lines, other): (Vec<&str>, Vec<&str>) = head.iter().partition(|l| attrs_mode && l.starts_with("#[strum("));
+            let mut out = String::from(prelude);
+            out.push_str(if attrs_mode { "macro_rules! mk_item { ($(#[$m:meta])* $n:ident { $($body:tt)* }) => {\n" } else { "macro_rules! mk_item { ($n:ident { $($body:tt)* }) => {\n" });
+            for l in &other {
+                out.push_str(l);
+                out.push('\n');
+            }
+            if attrs_mode {
+                out.push_str("$(#[$m])*\n");
+            }
+            out.push_str(&header);
+            out.push_str("\n$($body)*\n}\n} }\nmk_item!(\n");
+            for l in &strum_lines {
+                out.push_str(l);
+                out.push('\n');
+            }
+            out.push_str(o.name);
+            out.push_str(" {\n");
+            for l in body {
+                out.push_str(l);
+                out.push('\n');
+            }
+            out.push_str("});\n");
+            return out;
+        }
+        return full;
+    }
     let mut s = String::new();
     let salt = crate::fnv(e.name.as_bytes());
     let g = generics(e, o.t_bound, o.t_inst);
